@@ -42,6 +42,8 @@ def main():
         src = sys.argv[sys.argv.index("--src") + 1]
     patch = os.path.join(src, "seed_%s.diff" % x)
     demo = os.path.join(src, "demo_%s.py" % x)
+    if not os.path.exists(patch) and os.path.exists(os.path.join(src, "patch.diff")):
+        patch, demo = os.path.join(src, "patch.diff"), os.path.join(src, "demo.py")
     assert os.path.exists(patch) and os.path.exists(demo), "missing deliverables in %s" % src
     meta = {"property": pid, "variant": x, "source": "independent sub-agent given only the property text and a scratch worktree", "ran": []}
     wt = tempfile.mkdtemp(prefix="seedverify-")
@@ -91,8 +93,21 @@ def main():
         meta["agent_notes"] = open(notes).read()[:6000]
     dst = "/verif/seeded/%s-%s" % (pid, x)
     os.makedirs(dst, exist_ok=True)
-    shutil.copy(patch, os.path.join(dst, "patch.diff"))
-    shutil.copy(demo, os.path.join(dst, "demo.py"))
+    old_meta = os.path.join(dst, "meta.json")
+    if os.path.exists(old_meta):
+        om = json.load(open(old_meta))
+        first = om.get("first_run") or {"detected_by_own_property": om.get("detected_by_own_property"), "detected_by": om.get("detected_by"),
+                                        "analysis_errors": om.get("analysis_errors")}
+        meta["first_run"] = first
+    else:
+        meta["first_run"] = {"detected_by_own_property": meta["detected_by_own_property"], "detected_by": meta["detected_by"], "analysis_errors": meta["analysis_errors"]}
+    if os.path.exists(os.path.join(dst, "patch.diff")) and "--src" not in sys.argv and not os.path.exists(patch):
+        pass
+    if os.path.abspath(patch) != os.path.abspath(os.path.join(dst, "patch.diff")):
+        shutil.copy(patch, os.path.join(dst, "patch.diff"))
+        shutil.copy(demo, os.path.join(dst, "demo.py"))
+    if "agent_notes" not in meta and os.path.exists(old_meta):
+        meta["agent_notes"] = json.load(open(old_meta)).get("agent_notes", "")
     json.dump(meta, open(os.path.join(dst, "meta.json"), "w"), indent=1)
     print("own property %s: %s ; detected by %s ; analysis errors %s" % (pid, "DETECTED" if meta["detected_by_own_property"] else "MISSED",
                                                                       meta["detected_by"], meta["analysis_errors"]))
